@@ -5,6 +5,11 @@ From Coq Require Import ZifyBool ZifyN ZifyNat.
 Ltac Zify.zify_post_hook ::= Z.div_mod_to_equations.
 Local Open Scope N_scope.
 
+Lemma catch_ok {A} (r : res A) cs (a : A) : r = Ok a -> catch r cs (fun _ => Err EProtocol) = Ok a.
+Proof. intros ->. reflexivity. Qed.
+Lemma catch_ok_inv {A} (r : res A) cs (a : A) : catch r cs (fun _ => Err EProtocol) = Ok a -> r = Ok a.
+Proof. unfold catch. destruct r as [x|e]; [auto|]. destruct (existsb (subclass e) cs); discriminate. Qed.
+
 Lemma enc_key_eq : ENC_KEY = v2_key. Proof. unfold ENC_KEY, v2_key. reflexivity. Qed.
 
 (* the 40 header bytes *)
@@ -114,7 +119,8 @@ Lemma v2_decode_shape pre c tag l0 l1 :
   length pre = 34%nat -> from_le [l0; l1] = N.of_nat (56 + length c) -> length tag = 16%nat ->
   let packet := [90; 90; 1; 17; l0; l1] ++ pre ++ c in
   v2_decode (packet ++ tag) =
-    if negb (beqb (security_sign packet) tag) then Err EProtocol else decrypt_aes c.
+    if negb (beqb (security_sign packet) tag) then Err EProtocol
+    else catch (decrypt_aes c) [EValue] (fun _ => Err EProtocol).
 Proof.
   intros Hpre Hl Htag packet. unfold v2_decode.
   assert (Hlp : length packet = (40 + length c)%nat) by (unfold packet; rewrite !app_length, Hpre; reflexivity).
@@ -167,7 +173,7 @@ Proof.
   { rewrite <- Hlb. rewrite from_le_le_bytes; [f_equal; lia|]. change (256 ^ N.of_nat 2) with 65536. lia. }
   pose proof (v2_decode_shape pre c (md5 (([90; 90; 1; 17; l0; l1] ++ pre ++ c) ++ SIGN_KEY)) l0 l1 Hpre Hl01 (md5_length _)) as Hd.
   cbv zeta in Hd. rewrite Hd. unfold security_sign. rewrite beqb_refl'. cbn [negb].
-  unfold decrypt_aes. rewrite enc_key_eq, Hdec. cbn [bind]. apply pkcs7_unpad_pad_any.
+  apply catch_ok. unfold decrypt_aes. rewrite enc_key_eq, Hdec. cbn [bind]. apply pkcs7_unpad_pad_any.
 Qed.
 
 (* ---------- C03: integrity ---------- *)
@@ -203,7 +209,7 @@ Proof.
   destruct (negb (beqb _ _)) eqn:Eh; [discriminate|].
   intros H. split; [lia|]. split.
   - apply beqb_true. destruct (beqb _ _); [reflexivity|discriminate].
-  - rewrite <- encrypted_of_signed. exact H.
+  - rewrite <- encrypted_of_signed. apply catch_ok_inv in H. exact H.
 Qed.
 
 (* two accepted packets with the same signed part carry the same frame; hence a DIFFERENT frame can only be accepted
